@@ -111,7 +111,7 @@ def _gen_config(incdir):
 
 
 def _prune(keep):
-    """keep the two most recent trees, delete the rest"""
+    """keep the most recent trees, delete the rest"""
     try:
         import re
         ents = [e for e in os.listdir(CACHE)
@@ -119,7 +119,7 @@ def _prune(keep):
     except FileNotFoundError:
         return
     ents.sort(key=lambda e: os.path.getmtime(os.path.join(CACHE, e)), reverse=True)
-    for e in ents[1:]:
+    for e in ents[5:]:      # keep the six most recent trees (concurrent checks on other trees may still be running)
         shutil.rmtree(os.path.join(CACHE, e), ignore_errors=True)
 
 
